@@ -46,6 +46,8 @@ pub fn family_of(prop: &str) -> &'static str {
         "C06" => "Z",
         "C09" => "W9",
         "C08" | "C17" => "W8",
+        "C16" => "P",
+        "C19" | "C20" => "C",
         _ => "?",
     }
 }
@@ -65,6 +67,8 @@ pub fn explore(prop: &str, seed: u64, index: u64, thorough: bool, st: &mut Stats
         "Z" => crate::zoo::explore(index, seed, thorough, st),
         "W9" => Some(crate::w9::explore(seed, st)),
         "W8" => Some(crate::w8::explore(prop, seed, thorough, st)),
+        "P" => Some(crate::pfamily::explore(seed, thorough, st)),
+        "C" => Some(crate::cfamily::explore(prop, seed, thorough, st)),
         _ => panic!("no engine for property {}", prop),
     }
 }
@@ -75,6 +79,8 @@ pub fn eval(r: &Replay) -> EvalOut {
         "Z" => crate::zoo::eval_replay(r),
         "W9" => crate::w9::eval_replay(r),
         "W8" => crate::w8::eval_replay(r),
+        "P" => crate::pfamily::eval_replay(r),
+        "C" => crate::cfamily::eval_replay(r),
         f => panic!("unknown family {}", f),
     }
 }
